@@ -90,7 +90,7 @@ func (g *gen) buildCall(f *Func, depth int) Expr {
 func (g *gen) selectExpr(t *Type, depth int) Expr {
 	g.class("select")
 	var cond Expr
-	if t.K == TVec && g.chance(50, "selvec") {
+	if t.K == TVec && g.chance(50, "selvec") && !g.f.off("select.vector-cond") {
 		cond = g.expr(Vec(t.N, Bool), depth-1)
 	} else {
 		cond = g.expr(TBool, depth-1)
@@ -200,11 +200,17 @@ func (g *gen) intBuiltin(t *Type, depth int) Expr {
 	k := t.S
 	names := []string{"abs", "min", "max", "clamp", "countOneBits", "countLeadingZeros", "countTrailingZeros",
 		"reverseBits", "firstLeadingBit", "firstTrailingBit", "extractBits", "insertBits"}
-	if k == U32 {
+	if k == U32 && g.f.off("builtin.abs.unsigned") {
 		names = names[1:]
 	}
 	n := names[g.intn(len(names), "ibn")]
 	if g.f.off("builtin." + n) {
+		n = "min"
+	}
+	// Known finding (tag bits-helper.per-function, HLSL): the naga_extractBits /
+	// naga_insertBits helper is emitted once per function that uses it; keep
+	// these builtins in the entry point only.
+	if (n == "extractBits" || n == "insertBits") && g.inHelper && g.f.off("bits-helper.per-function") {
 		n = "min"
 	}
 	g.class("builtin:" + n + ":" + shapeClass(t))
@@ -266,6 +272,21 @@ func (g *gen) intExpr(k Kind, depth int) Expr {
 		n := 2 + g.intn(3, "dotn")
 		g.class("builtin:dot:int")
 		b := &Builtin{Name: "dot", Args: []Expr{g.expr(Vec(n, k), depth-1), g.expr(Vec(n, k), depth-1)}, T: t}
+		if g.f.off("dot.int.bool-splat-convert") {
+			// (known finding C05-18: vecN<i32>(bool-vector let) inside an integer dot)
+			for i, a := range b.Args {
+				bad := false
+				WalkExpr(a, func(x Expr) bool {
+					if c, ok := x.(*Construct); ok && len(c.Args) == 1 && c.Args[0].Type() != nil && c.Args[0].Type().K == TVec && c.Args[0].Type().S == Bool {
+						bad = true
+					}
+					return !bad
+				})
+				if bad {
+					b.Args[i] = g.runtimeOf(Vec(n, k))
+				}
+			}
+		}
 		return g.guardConst(b, func() { b.Args[0] = g.runtimeOf(Vec(n, k)) })
 	default:
 		if k == U32 && g.f.Floats && !g.f.off("builtin.pack") {
@@ -364,11 +385,33 @@ func (g *gen) boolExpr(depth int) Expr {
 		op := cmpOps[g.intn(6, "cmp")]
 		g.class("cmp" + op + ":" + k.String())
 		b := &Binary{Op: op, L: g.expr(Scalar(k), depth-1), R: g.expr(Scalar(k), depth-1), T: TBool}
+		if !IsConstExpr(b) && foldable(b) && g.f.off("const-fold.compare-let") {
+			// (known finding C05-17: folded through a let, the result is typed as the operands)
+			b.R = g.runtimeOf(Scalar(k))
+		}
 		return g.guardConst(b, func() { b.R = g.runtimeOf(Scalar(k)) })
 	case r < 72:
 		op := []string{"&&", "||", "&", "|", "==", "!="}[g.intn(6, "lop")]
 		g.class("logic" + op)
-		return &Binary{Op: op, L: g.expr(TBool, depth-1), R: g.expr(TBool, depth-1), T: TBool}
+		lb := &Binary{Op: op, L: g.expr(TBool, depth-1), R: g.expr(TBool, depth-1), T: TBool}
+		if (op == "&&" || op == "||") && foldable(lb) && g.f.off("const-fold.logical-named-const") {
+			// (known finding C05-19: && / || of constants that include a named const fold to false)
+			named := false
+			WalkExpr(lb, func(x Expr) bool {
+				if _, ok := x.(*VarRef); ok {
+					named = true
+				}
+				return !named
+			})
+			if named {
+				if g.inConst > 0 || len(g.inputs) == 0 {
+					// const context: no run-time leaf exists; fall back to a literal
+					return g.litOf(Bool)
+				}
+				lb.R = g.runtimeOf(TBool)
+			}
+		}
+		return lb
 	case r < 80:
 		g.class("unary!")
 		return &Unary{Op: "!", X: g.expr(TBool, depth-1), T: TBool}
@@ -376,6 +419,10 @@ func (g *gen) boolExpr(depth int) Expr {
 		n := 2 + g.intn(3, "aan")
 		name := []string{"all", "any"}[g.intn(2, "aa")]
 		g.class("builtin:" + name)
+		if g.chance(15, "aascalar") && !g.f.off("builtin.relational.scalar") {
+			g.class("builtin:" + name + ":scalar")
+			return &Builtin{Name: name, Args: []Expr{g.expr(TBool, depth-1)}, T: TBool}
+		}
 		return &Builtin{Name: name, Args: []Expr{g.expr(Vec(n, Bool), depth-1)}, T: TBool}
 	case r < 93:
 		return g.selectExpr(TBool, depth)
@@ -393,7 +440,7 @@ func (g *gen) boolExpr(depth int) Expr {
 
 var exactFloatBuiltins = []string{"abs", "min", "max", "clamp", "floor", "ceil", "trunc", "round", "fract", "sign", "step", "saturate"}
 var inexactFloatBuiltins = []string{"sqrt", "inverseSqrt", "exp", "exp2", "log", "log2", "sin", "cos", "tan", "atan", "sinh", "cosh", "tanh",
-	"degrees", "radians", "pow", "fma", "mix", "smoothstep"}
+	"degrees", "radians", "pow", "fma", "mix", "smoothstep", "asinh"}
 
 func (g *gen) floatBuiltin(t *Type, depth int, inexact bool) Expr {
 	e := func() Expr { return g.floatish(t, depth-1) }
@@ -668,6 +715,9 @@ func (g *gen) vecExpr(t *Type, depth int) Expr {
 			names := map[int][]string{2: {"unpack2x16float"}, 4: {"unpack4x8unorm", "unpack4x8snorm"}}[t.N]
 			if len(names) > 0 && (g.fuzzy || t.N == 2) {
 				n := names[g.intn(len(names), "upk")]
+				if n == "unpack4x8snorm" && g.f.off("builtin.unpack4x8snorm") {
+					n = "unpack4x8unorm"
+				}
 				g.class("builtin:" + n)
 				var arg Expr = g.expr(TU32, depth-1)
 				if n == "unpack2x16float" {
